@@ -139,7 +139,7 @@ func c13Doc(c *explore.Ctx, s *explore.SubStats, text string, cfgs []sfmtCfg) {
 			c.Report(s, explore.Violation{Key: key, Input: explore.J(in), Rendered: text + "   [" + cfg.String() + "]", Detail: detail, Expected: exp, Observed: obs})
 		}
 		cc := "cfg=" + cfgClass(cfg)
-		p0 := projSDLMerged(d, cfg.NoDesc)
+		p0 := normStr(projSDLMerged(d, cfg.NoDesc))
 		var out string
 		r := guarded(0, 0, func() { out = formatSchemaDoc(d, cfg) })
 		if r.Panicked {
@@ -153,7 +153,7 @@ func c13Doc(c *explore.Ctx, s *explore.SubStats, text string, cfgs []sfmtCfg) {
 			s.Outcome("reparse-error")
 			continue
 		}
-		if p2 := projSDLMerged(d2, cfg.NoDesc); p2 != p0 {
+		if p2 := normStr(projSDLMerged(d2, cfg.NoDesc)); p2 != p0 {
 			bad("sfmt/projection "+cc+" node="+treeClass(p0, p2), "the re-parsed schema document differs from the original\n--- formatted:\n"+out, p0, p2)
 			s.Outcome("differs")
 			continue
@@ -217,6 +217,7 @@ func c13Loaded(c *explore.Ctx, s *explore.SubStats, text string, cfgs []sfmtCfg)
 			return gqlparser.LoadSchema(&ast.Source{Input: t, Name: "formatted.graphql"})
 		}
 		norm := func(d string) string {
+			d = normStr(d)
 			if cfg.Builtin {
 				d = builtinFlagRe.ReplaceAllString(d, " ")
 			}
@@ -289,7 +290,7 @@ func onlyBuiltinLinesDiffer(a, b string) bool {
 
 // description values placed on every describable element
 var c13Descs = []string{"plain", "multi\nline", `say "hi"`, `ends with quote"`, `back\slash`, `has """ triple`, "  leading", "trailing  ", "\nleading newline", "trailing newline\n",
-	"tab\there", "é😀", `\"""`, "a\n  indented\n    more", `""`, "#not a comment"}
+	"tab\there", "é😀", `\"""`, "a\n  indented\n    more", `""`, "#not a comment", "a\n  \nb", "a\n\t\nb", "code:\n    x\n    \n    y", "a\n\nb", "x\\"}
 
 // c13Described: a valid type system in which slot k carries the description; %d slots.
 var c13DescTemplate = []string{
@@ -323,6 +324,17 @@ func c13DescSchema(slot int, desc string) (string, int) {
 	}
 	return b.String(), n
 }
+
+// default values (and directive argument values) written as quoted and block strings
+var c13DefaultLits = []string{`"x"`, `"""one line"""`, "\"\"\"first\n  second\n  third\"\"\"", "\"\"\"\n  a\n    b\n  c\n\"\"\"", `"""ends with backslash\\"""`, `"""has \\""" inside"""`, "\"\"\"tab\there\"\"\"",
+	"[\"\"\"a\n b\"\"\", \"c\"]", "{k: \"\"\"x\n  y\"\"\"}", `"""  leading"""`, `""" """`, "\"\"\"é😀\n  é\"\"\"",
+	"\"\"\"\n  a\n    b\n    c\n\"\"\"", "\"\"\"\n x\n   y\"\"\"", "\"\"\"\n\ta\n\t\tb\\\\\"\"\"", "{k: [\"\"\"\n  p\n    q\n\"\"\"]}"}
+
+const c13DefaultTemplate = `scalar Any
+input In { x: String = § any: Any = § }
+directive @d(a: String = §, any: Any) repeatable on FIELD_DEFINITION | OBJECT | ARGUMENT_DEFINITION
+type Query @d(any: §) { f(a: String = § @d(any: §), any: Any = §): Int @d(any: §) }
+`
 
 func runC13(c *explore.Ctx) {
 	// (a) schema documents
@@ -381,6 +393,46 @@ func runC13(c *explore.Ctx) {
 			s.States++
 			c13Loaded(c, s, strings.Join(kitInput{Items: items}.defs(), "\n"), allSfmtCfgs)
 		})
+		s.WallS = time.Since(t0).Seconds()
+	}
+
+	// (d) default values and directive arguments written as (block) strings
+	s = c.Sub("default-values", fmt.Sprintf("a type system with string-typed and custom-scalar defaults on an argument, an input field and a directive argument, and directive argument values on a type, a field and an argument; each of the 8 slots × each of %d literals (quoted strings, single- and multi-line block strings with hanging indentation, trailing backslash, escaped triple quote, nested in lists and objects) × all 64 configurations", len(c13DefaultLits)),
+		"as loaded-kit and the document round trip (a block string and a quoted string of equal value are the same value)", "every case")
+	if s != nil {
+		t0 := time.Now()
+		n := strings.Count(c13DefaultTemplate, "§")
+		idx := 0
+		for slot := 0; slot < n; slot++ {
+			for _, lit := range c13DefaultLits {
+				idx++
+				if idx%c.NShards != c.Shard {
+					continue
+				}
+				// string-typed slots only take string literals
+				i := 0
+				var b strings.Builder
+				ok := true
+				for _, r := range c13DefaultTemplate {
+					if r == '§' {
+						if i == slot {
+							b.WriteString(lit)
+						} else {
+							b.WriteString(`"k"`)
+						}
+						i++
+						continue
+					}
+					b.WriteRune(r)
+				}
+				if !ok {
+					continue
+				}
+				s.States++
+				c13Loaded(c, s, b.String(), allSfmtCfgs)
+				c13Doc(c, s, b.String(), allSfmtCfgs)
+			}
+		}
 		s.WallS = time.Since(t0).Seconds()
 	}
 
